@@ -172,7 +172,8 @@ class HComp(fm.TimeComponent):
     """
 
     def __init__(self, name, idx, start, steps, inputs=(), outputs=(), initial_pull=True,
-                 on_update=None, value=None, units="", in_units=None, out_deps=None, finish_after=None):
+                 on_update=None, value=None, units="", in_units=None, out_deps=None, finish_after=None,
+                 required_idiom=False):
         super().__init__()
         self._name = name
         self.idx = idx
@@ -196,6 +197,10 @@ class HComp(fm.TimeComponent):
         self._pushed0 = set()
         # component declares itself FINISHED after this many updates (None: never)
         self.finish_after = finish_after
+        # producer written in the idiom of finam's own generators: initial data is generated whenever the
+        # connect helper says it is still required; generation is stateful (every call advances the state)
+        self.required_idiom = required_idiom
+        self.generations = 0
 
     def step_at(self, k):
         return self.steps[k % len(self.steps)]
@@ -230,6 +235,16 @@ class HComp(fm.TimeComponent):
                 self._generated = True
                 for n in (self.in_names if self.initial_pull else []):
                     self.received.append((0, n, start_time, self.connector.in_data[n]))
+        elif self.required_idiom:
+            if not self.initial_pull or self.connector.all_data_pulled:
+                for n in self.out_names:
+                    if self.connector.data_required[n]:
+                        self.generations += 1
+                        push[n] = np.array([float(1000 * self.idx) + 0.125 * self.generations], dtype=object)
+                if not self._generated and self.initial_pull:
+                    for n in self.in_names:
+                        self.received.append((0, n, start_time, self.connector.in_data[n]))
+                self._generated = True
         elif not self._generated:
             if not self.initial_pull or self.connector.all_data_pulled:
                 push = {n: self.tag(0) for n in self.out_names}
